@@ -8,6 +8,21 @@ BASE = "cd /repo && /venv/bin/python -m pytest -ra -q -p no:cacheprovider --time
 
 # id -> dict(level, text, note, technique, design_ref, engine)
 CLAIMS = {
+ "C03": dict(
+  level="model_checking",
+  text="Tool_MC explores the artifact store under all command sequences (sign, sign remove-old, extract, cache, sever, round "
+       "trip) up to length 3 with RoundTripIsIdentity, DigestBindsManifest, BlocksOverDigest and ManifestProvenance in every "
+       "reachable store; the sequences are replayed on real envelopes and at every intermediate artifact the real parse -> "
+       "{yaml, json} x {+-hierarchy} -> create round trip runs through files (library + CLI); both envelopes are projected "
+       "and TLC judges Same (manifest, wrapper incl. every block, severed members byte-identical; same SET of integrated "
+       "members) and CreatedJudge on the re-created envelope. The second conjunct (the shown description names exactly the "
+       "content) is judged by re-encoding the PARSED description with the reference encoder Wire.tla (see C02) where that "
+       "encoder applies.",
+  note="Known finding F4 (lossy union decoding of raw byte strings that decode as CBOR int/tstr) is pinned by one "
+       "representative per site in known_findings.json and excluded from the random stream. Order of text-keyed members is "
+       "not compared (the property says 'set').",
+  technique="TLA+ spec (Tool_MC.tla, Extract.tla SameJudge) + TLC exhaustive command-sequence model + sequences replayed on real envelopes with real parse/create round trips + TLC trace validation",
+  design_ref="DESIGN.md 4.4, 5 (C03)", engine="tlc"),
  "C17": dict(
   level="exploration",
   text="Parser.tla contributes the mutation machine (Replace(node, kind) for every node of the item tree x 20 CBOR kinds, "
